@@ -271,6 +271,15 @@ M('c02-guard-flipped', ['C02'], Y23 + 'f1040.py', "FloatField('34', lambda s, i,
 M('c02-reordered-summands', ['C02'], Y23 + 'f1040.py', "FloatField('14', lambda s, i, v: v['12'] + v['13']),", "FloatField('14', lambda s, i, v: float(v['13'] + v['12'])),", None, 'summands reordered and wrapped in float()', 'silent')
 M('c02-guarded-floor', ['C02'], Y23 + 'f1040.py', "FloatField('22', lambda s, i, v: max(0.0, v['18'] - v['21'])),", "FloatField('22', lambda s, i, v: v['18'] - v['21'] if v['18'] > v['21'] else 0.0),", None, 'floor written as a guarded subtraction', 'silent')
 
+# ------------------------------------------------------------------ C10 R10.10 (declared type)
+M('c10-int-product-for-float-line', ['C10'], Y21 + 'f1040_s8812.py', "FloatField('37', lambda s, i, v: v['32'] * 2000.0),", "FloatField('37', lambda s, i, v: v['32'] * 2000),", 'R10.10', 'int * int for a float line (F22 reverted)')
+M('c10-empty-sum-int', ['C10'], Y23 + 'f1040_sa.py', "            return float(mortgage_interest_points)\n", "            return mortgage_interest_points\n", 'R10.10', 'sum over zero Forms 1098 is the int 0 (F27 reverted)')
+M('c10-int-input-for-text-line', ['C10'], Y23 + 'fnc_d_400.py', "str(i['year_spouse_died']) if v['5'] else None", "i['year_spouse_died'] if v['5'] else None", 'R10.10', 'integer input returned by a text line (F28 reverted)')
+M('c10-int-floor-for-float-line', ['C10'], Y23 + 'f1040.py', "FloatField('22', lambda s, i, v: max(0.0, v['18'] - v['21'])),", "FloatField('22', lambda s, i, v: max(0, v['18'] - v['21'])),", 'R10.10', 'max(0, x) returns the int 0 when the floor applies')
+M('c10-bool-for-integer-line', ['C10'], Y23 + 'f1040_s8812.py', "IntegerField('4', lambda s, i, v: i['number_under_17']", "IntegerField('4', lambda s, i, v: i['number_under_17'] > 0", 'R10.10', 'comparison result returned by an integer line', accept_error=True)
+M('c10-empty-sum-guarded', ['C10'], Y23 + 'f8995.py', "FloatField('6', lambda s, i, v: float(sum([v[f'1099-div:{n}.box_5'] for n in range(i['1040.number_1099-div'])]))),", "FloatField('6', lambda s, i, v: sum([v[f'1099-div:{n}.box_5'] for n in range(i['1040.number_1099-div'])]) if i['1040.number_1099-div'] > 0 else None),", None, 'empty sum excluded by a guard on the count instead of float()', 'silent')
+M('c10-empty-sum-plus-float', ['C10'], Y23 + 'f8995.py', "FloatField('6', lambda s, i, v: float(sum([v[f'1099-div:{n}.box_5'] for n in range(i['1040.number_1099-div'])]))),", "FloatField('6', lambda s, i, v: 0.0 + sum([v[f'1099-div:{n}.box_5'] for n in range(i['1040.number_1099-div'])])),", None, 'empty sum promoted by adding 0.0', 'silent')
+
 # ------------------------------------------------------------------ C15
 M('c15-floor-misplaced', ['C15'], Y22 + 'f1040.py', "FloatField('22', lambda s, i, v: max(0.0, v['18'] - v['21'])),", "FloatField('22', lambda s, i, v: max(0.0, v['18']) - v['21']),", 'R15.2', 'misplaced parenthesis lets line 22 go negative (seed C15-A)')
 M('c15-floor-removed', ['C15'], Y23 + 'f1040.py', "FloatField('15', lambda s, i, v: max(0.0, v['11'] - v['14'])), # Taxable income", "FloatField('15', lambda s, i, v: v['11'] - v['14']), # Taxable income", 'R15.2', 'taxable income can go negative')
